@@ -39,13 +39,21 @@ HetOther == {StrV(<<"a">>), NumV(4), SeqV(TTup(<<TStr>>), <<StrV(<<"a">>)>>), Se
 HetLines == {[k |-> "call", api |-> api, xs |-> <<[keys |-> <<"a", "b", "c">>]>>, a |-> s, vs |-> <<>>]
               : api \in {"ListVal", "SetVal", "MapVal"}, s \in {<<p, o>> : p \in HetPlace, o \in HetOther} \cup {<<o, p>> : p \in HetPlace, o \in HetOther}
                                                                   \cup {<<o, p, o>> : p \in TakeN(HetPlace, 2), o \in TakeN(HetOther, 3)} \cup {<<p, q>> : p \in HetPlace, q \in HetPlace}}
+\* predicates of a value (known-ness, nullness): marks anywhere in the value do not change their answers
+PredVals == {SeqV(TList(TList(TNum)), <<SeqV(TList(TNum), <<NumV(4), Unk(TNum, NoRf)>>)>>), SeqV(TList(TList(TNum)), <<SeqV(TList(TNum), <<NumV(4)>>)>>),
+             SeqV(TTup(<<TList(TNum), TStr>>), <<SeqV(TList(TNum), <<Unk(TNum, NoRf)>>), StrV(<<"a">>)>>), SeqV(TTup(<<TList(TNum), TStr>>), <<SeqV(TList(TNum), <<NumV(0)>>), Unk(TStr, NoRf)>>),
+             MapV(TObj([a |-> TObj([b |-> TNum])]), [a |-> MapV(TObj([b |-> TNum]), [b |-> Unk(TNum, NoRf)])]), MapV(TMap(TList(TStr)), [a |-> SeqV(TList(TStr), <<Unk(TStr, [null |-> "F"])>>)]),
+             SeqV(TList(TSet(TNum)), <<SeqV(TSet(TNum), <<NumV(4), Unk(TNum, NoRf)>>)>>), SeqV(TList(TNum), <<Null(TNum)>>), Null(TList(TNum)), Unk(TList(TNum), NoRf), NumV(4),
+             SeqV(TTup(<<TDyn>>), <<DynVal>>), SeqV(TList(TTup(<<TNum, TStr>>)), <<SeqV(TTup(<<TNum, TStr>>), <<NumV(4), Unk(TStr, NoRf)>>)>>)}
+PredLines == {[k |-> "mark", api |-> api, xs |-> <<[none |-> TRUE]>>, a |-> <<v>>, vs |-> SetToSeq({<<m>> : m \in MarkPlacements(v)})]
+               : api \in {"IsWhollyKnown", "IsKnown", "IsNull", "HasWhollyKnownType"}, v \in PredVals}
 \* conversion functions built for representative target types (stdlib.MakeToFunc): every source value (known, null, unknown, marked,
 \* nested unknown) of primitive, collection and structural types, including collections whose element type is an object or a tuple
 ToTargets == {TStr, TNum, TBool, TList(TStr), TSet(TStr), TMap(TStr), TList(TDyn), TSet(TDyn), TMap(TDyn), TDyn, TList(TObj([a |-> TStr])), TObj([a |-> TStr, b |-> TNum])}
 ToSrcT == PrimTypes \cup VT1 \cup TakeN(VT2, 6) \cup {TList(TObj([a |-> TNum])), TSet(TTup(<<TNum, TStr>>)), TMap(TList(TObj([a |-> TNum]))), TList(TTup(<<TStr>>)), TMap(TObj([a |-> TNum, b |-> TStr]))}
 ToLines == UNION {{[k |-> "call", api |-> "fn:to", xs |-> [i \in 1..Len(SetToSeq(ToTargets)) |-> [ty |-> SetToSeq(ToTargets)[i]]], a |-> <<v>>, vs |-> <<>>]
                    : v \in TakeN(Vals(t, W), 4) \cup {Null(t), Unk(t, NoRf), Unk(t, [null |-> "F"]), DynVal, WithMk(Unk(t, NoRf), <<"m1">>)} \cup UNION {TakeN(Weak1(x, TRUE), 2) \cup TakeN(MarkNested(x, <<"m2">>), 1) : x \in TakeN(Vals(t, W), 2)}} : t \in ToSrcT}
-Lines == IF Fam = "to" THEN ToLines ELSE IF Fam = "convert" THEN ConvLines ELSE CtorLines \cup MarkApiLines \cup DupKeyLines \cup HetLines
+Lines == IF Fam = "to" THEN ToLines ELSE IF Fam = "convert" THEN ConvLines ELSE CtorLines \cup MarkApiLines \cup DupKeyLines \cup HetLines \cup PredLines
 ASSUME LET sq == SetToSeq(Lines) IN ndJsonSerialize(IOEnv.VOUT, sq) /\ PrintT(<<"GEN", Len(sq)>>)
 VARIABLE x
 Init == x = 0
